@@ -49,14 +49,16 @@ def check_object(x, where):
     if x.n_int != w - f - (1 if s else 0):
         raise Mismatch(where + '/n_int', {'n_int': x.n_int, 'dtype': x.dtype})
     sc, bi = Fraction(x.scale), Fraction(x.bias)
-    want = {'upper': sc * M.value_of(hi, f) + bi, 'lower': sc * M.value_of(lo, f) + bi, 'precision': sc * M.pow2(-f)}
+    base = {'upper': M.value_of(hi, f), 'lower': M.value_of(lo, f), 'precision': M.pow2(-f)}
+    want = {'upper': sc * base['upper'] + bi, 'lower': sc * base['lower'] + bi, 'precision': sc * base['precision']}
     for name, wv in want.items():
         gv = getattr(x, name)
         if cplx:
-            # a complex object reports its limits either as the real number or as that number in both components
-            ok = complex(gv) == complex(float(wv), float(wv)) or complex(gv) == complex(float(wv), 0.0)
+            # an object holding complex values reports the limit in both components (mapped through scale and bias as one complex number)
+            ok = isinstance(gv, (complex, np.complexfloating)) and complex(gv) == float(sc) * complex(float(base[name]), float(base[name])) + (float(bi) if name != 'precision' else 0.0)
         else:
-            ok = float(gv) == float(wv)
+            # an object holding real values reports real limits, whatever it held before
+            ok = not isinstance(gv, (complex, np.complexfloating)) and float(gv) == float(wv)
         if not ok:
             raise Mismatch('%s/%s' % (where, name), {'expected': str(wv), 'got': str(gv), 'dtype': x.dtype})
     spelled = M.dtype_str(s, w, f, cplx, x.config.dtype_notation)
